@@ -171,14 +171,17 @@ def main(tier, replay=None):
                       ("-p=16", dict(pflag=16))]
         if tier == "thorough":
             variations += [("again", dict()), ("-p=3, other TMPDIR", dict(pflag=3, tmpname="tmp-three")), ("again 2", dict()), ("again 3", dict())]
+        # -debugdir forces a full rebuild (-a, standard library included): only the thorough tier compares the
+        # intermediate obfuscated sources, and only for one pair per configuration
+        DD = tier == "thorough"
         for (label, gflags, env, files) in configs:
             st["configurations"] += 1
-            ref, refdd, err = build_cold(E, base, files, gflags, env, "ref", debugdir=True)
+            ref, refdd, err = build_cold(E, base, files, gflags, env, "ref")
             st["cold_builds"] += 1
             if ref is None:
                 fails.append({"why": "the build fails", "detail": {"config": label, "stderr": err[-800:]}, "key": "build-fails:" + label}); continue
             for k, (vlabel, kw) in enumerate(variations):
-                h, dd, err = build_cold(E, base, files, gflags, env, "v%d" % k, debugdir=True, **kw)
+                h, dd, err = build_cold(E, base, files, gflags, env, "v%d" % k, **kw)
                 st["cold_builds"] += 1
                 chk.count_cases(["pair|%s|%s" % (label, vlabel)])
                 if h is None:
@@ -188,12 +191,24 @@ def main(tier, replay=None):
                 else:
                     fails.append({"why": "two cold builds of the same source and configuration give different binaries",
                                   "detail": {"config": label, "flags": gflags, "env": env, "variation": vlabel}, "files": files if files is ctrl_files else None, "key": "binary-differs:" + label})
-                if dd == refdd:
-                    st["debugdir_sources_identical"] += 1
+            if DD:
+                ha, dda, erra = build_cold(E, base, files, gflags, env, "dda", debugdir=True)
+                hb, ddb, errb = build_cold(E, base, files, gflags, env, "ddb", debugdir=True, srcname="elsewhere/src3", pflag=2)
+                st["cold_builds"] += 2
+                chk.count_cases(["debugdir-pair|%s" % label])
+                if ha is None or hb is None:
+                    fails.append({"why": "the build fails", "detail": {"config": label, "stderr": (erra or errb)[-800:]}, "key": "build-fails:" + label})
                 else:
-                    diff = sorted(f for f in set(dd) | set(refdd) if dd.get(f) != refdd.get(f))
-                    # the obfuscated source is an intermediate: a difference there with identical binaries is reported as a note
-                    chk.notes.append("garbled sources differ between cold builds (%s, %s): %s" % (label, vlabel, diff[:4]))
+                    if ha == hb:
+                        st["identical_binaries"] += 1
+                    else:
+                        fails.append({"why": "two cold -debugdir builds give different binaries", "detail": {"config": label}, "key": "binary-differs:" + label})
+                    if dda == ddb:
+                        st["debugdir_sources_identical"] += 1
+                    else:
+                        diff = sorted(f for f in set(dda) | set(ddb) if dda.get(f) != ddb.get(f))
+                        # the obfuscated source is an intermediate: a difference there with identical binaries is reported as a note
+                        chk.notes.append("garbled sources differ between cold builds (%s): %s" % (label, diff[:4]))
             # warm and partially filled caches: build, drop some of garble's own entries, rebuild
             W = c06.CacheSet(E, "warm", base)
             root = os.path.join(E.scratch, "warm_src"); shutil.rmtree(root, ignore_errors=True); c06.write_prog(root, files)
